@@ -77,6 +77,15 @@ Overlay(nd, o) == IF nd.force THEN Mix(o, nd.q) ELSE Mix(nd.q, o)
 \* the effective lookup table of a dataset: its overload table at this moment
 DsTable(nd) == IF nd.tab = 0 THEN <<>> ELSE tabs[nd.tab]
 
+\* with_options / with_default_options derivatives ("dsof") are the same dataset (same tables,
+\* callback, effects, cache) with further pre-set / default options mixed in
+RECURSIVE NodeRec(_)
+NodeRec(n) ==
+    LET r == nodes[n] IN
+    IF r.k # "dsof" THEN r
+    ELSE LET b == NodeRec(r.base) IN
+         IF r.mode = "force" THEN [b EXCEPT !.q = Mix(b.q, r.q2)] ELSE [b EXCEPT !.dd = Mix(b.dd, r.q2)]
+
 -----------------------------------------------------------------------------
 RECURSIVE Eval(_, _), Validate(_, _), KeysOf(_, _), Explain(_, _)
 
@@ -152,7 +161,7 @@ EffectsOn(nd, o2) ==   \* effects run unless disabled by option or per dataset
 
 -----------------------------------------------------------------------------
 Eval(n, o) ==
-    LET nd == nodes[n] IN
+    LET nd == NodeRec(n) IN
     CASE nd.k = "val" -> Ok(nd.v)
       [] nd.k = "opt" ->
             LET raw == Get(nd.p, o)
@@ -207,8 +216,9 @@ Eval(n, o) ==
             LET RECURSIVE Go(_, _)
                 Go(i, last) == IF i > Len(nd.ms) THEN last
                                ELSE LET v == Validate(nd.ms[i], o) IN
-                                    IF ~v.ok THEN Go(i + 1, v)
-                                    ELSE LET e == Eval(nd.ms[i], o) IN IF e.ok THEN e ELSE Go(i + 1, e)
+                                    IF ~v.ok THEN (IF v.cls = "IllTyped" THEN v ELSE Go(i + 1, v))
+                                    ELSE LET e == Eval(nd.ms[i], o) IN
+                                         IF e.ok \/ e.cls = "IllTyped" THEN e ELSE Go(i + 1, e)
             IN Go(1, UserErr("empty"))
       [] nd.k = "coll" ->     \* Iter and the list / tuple / set / dict collections
             LET vs == EvalSeq(nd.ms, o) IN
@@ -250,7 +260,7 @@ Eval(n, o) ==
 
 -----------------------------------------------------------------------------
 Validate(n, o) ==
-    LET nd == nodes[n] IN
+    LET nd == NodeRec(n) IN
     CASE nd.k = "val" -> OkV
       [] nd.k = "opt" ->
             IF Has(nd.p, o)
@@ -303,7 +313,9 @@ Validate(n, o) ==
       [] nd.k = "coalesce" ->
             LET RECURSIVE Go(_, _)
                 Go(i, last) == IF i > Len(nd.ms) THEN last
-                               ELSE LET v == Validate(nd.ms[i], o) IN IF v.ok THEN v ELSE Go(i + 1, v)
+                               ELSE LET v == Validate(nd.ms[i], o) IN
+                                    IF v.ok \/ v.cls = "IllTyped" THEN v
+                                    ELSE Go(i + 1, v)
             IN Go(1, UserErr("empty"))
       [] nd.k = "coll" -> ValidateSeq(nd.ms, o)
       [] nd.k = "map" ->
@@ -329,7 +341,7 @@ RefKeys(p, o) ==
     IF missing # {} THEN KeyNotFound(missing) ELSE OkK({p} \cup refs)
 
 KeysOf(n, o) ==
-    LET nd == nodes[n] IN
+    LET nd == NodeRec(n) IN
     CASE nd.k = "val" -> OkK({})
       [] nd.k = "opt" ->
             LET own == IF Has(nd.p, o) THEN RefKeys(nd.p, o)
@@ -382,8 +394,10 @@ KeysOf(n, o) ==
       [] nd.k = "coalesce" ->
             LET RECURSIVE Go(_, _)
                 Go(i, last) == IF i > Len(nd.ms) THEN last
-                               ELSE LET v == Validate(nd.ms[i], o) IN
-                                    IF ~v.ok THEN Go(i + 1, v)
+                               ELSE LET v == Validate(nd.ms[i], o)
+                                        e == Eval(nd.ms[i], o) IN
+                                    IF (~v.ok /\ v.cls = "IllTyped") \/ (~e.ok /\ e.cls = "IllTyped") THEN IllTyped
+                                    ELSE IF ~v.ok THEN Go(i + 1, v)
                                     ELSE LET ks == KeysOf(nd.ms[i], o) IN IF ks.ok THEN ks ELSE Go(i + 1, ks)
             IN Go(1, UserErr("empty"))
       [] nd.k = "coll" -> KeysSeq(nd.ms, o)
@@ -415,7 +429,7 @@ KeysOf(n, o) ==
 Insufficient == Fail("Insufficient", {}, "")
 
 Explain(n, o) ==
-    LET nd == nodes[n] IN
+    LET nd == NodeRec(n) IN
     CASE nd.k = "val" -> OkK({})
       [] nd.k = "opt" ->
             LET own == IF Has(nd.p, o) THEN OkK({nd.p} \cup RefsTrans(Get(nd.p, o), o))
@@ -462,8 +476,10 @@ Explain(n, o) ==
       [] nd.k = "coalesce" ->
             LET RECURSIVE Go(_)
                 Go(i) == IF i > Len(nd.ms) THEN Explain(nd.ms[Len(nd.ms)], o)
-                         ELSE LET v == Validate(nd.ms[i], o) IN
-                              IF ~v.ok THEN Go(i + 1)
+                         ELSE LET v == Validate(nd.ms[i], o)
+                                  e == Eval(nd.ms[i], o) IN
+                              IF (~v.ok /\ v.cls = "IllTyped") \/ (~e.ok /\ e.cls = "IllTyped") THEN IllTyped
+                              ELSE IF ~v.ok THEN Go(i + 1)
                               ELSE LET ks == Explain(nd.ms[i], o) IN IF ks.ok THEN ks ELSE Go(i + 1)
             IN Go(1)
       [] nd.k = "coll" -> ExplainSeq(nd.ms, o)
@@ -496,11 +512,103 @@ Explain(n, o) ==
       [] nd.k = "fnapp" -> ExplainSeq(nd.args, o)
 
 -----------------------------------------------------------------------------
+(***************************************************************************)
+(* C02 / C06 / C18: Visit(n, o) is the set of [node, options] pairs on     *)
+(* which evaluate is invoked when n is evaluated under o: the selected     *)
+(* path, including members / dispatches that are tried and fail.  The      *)
+(* dataset nodes among them are the demands Dem(n, o): which bodies MAY    *)
+(* run (an upper bound: running fewer bodies is never an error).           *)
+(***************************************************************************)
+RECURSIVE Visit(_, _), Mentions(_)
+
+VisitSeq(ns, o) ==   \* members in order, up to and including the first that fails
+    LET firstbad == IF \E i \in 1 .. Len(ns) : ~Eval(ns[i], o).ok
+                    THEN CHOOSE i \in 1 .. Len(ns) : ~Eval(ns[i], o).ok /\ \A j \in 1 .. i - 1 : Eval(ns[j], o).ok
+                    ELSE Len(ns) IN
+    UNION {Visit(ns[i], o) : i \in 1 .. firstbad}
+
+OptVisit(m, o) == IF m = 0 THEN {} ELSE Visit(m, o)
+
+Visit(n, o) ==
+    LET nd == NodeRec(n) IN
+    {[n |-> n, o |-> o]} \cup
+    CASE nd.k = "val" -> {}
+      [] nd.k = "opt" -> (IF Has(nd.p, o) THEN {} ELSE OptVisit(nd.d, o)) \cup OptVisit(nd.dom, o)
+      [] nd.k = "pred" -> Visit(nd.arg, o)
+      [] nd.k = "tmpl" -> VisitSeq([i \in 1 .. Len(nd.ps) |-> nd.ps[i].n], o)
+      [] nd.k = "apply" -> Visit(nd.src, o)
+      [] nd.k = "bind" ->
+            LET s == Eval(nd.src, o) IN
+            Visit(nd.src, o) \cup (IF ~s.ok THEN {}
+                                 ELSE LET hit == TabFind(nd.lk, s.v) tgt == IF hit # 0 THEN hit ELSE nd.other IN OptVisit(tgt, o))
+      [] nd.k = "switch" ->
+            LET dv == Eval(nd.d, o) IN
+            Visit(nd.d, o) \cup (IF ~dv.ok THEN OptVisit(nd.dflt, o)
+                               ELSE IF ~Hashable(dv.v) THEN {}
+                               ELSE LET hit == TabFind(nd.lk, dv.v) IN OptVisit(IF hit # 0 THEN hit ELSE nd.dflt, o))
+      [] nd.k = "case" ->
+            LET dv == Eval(nd.d, o) IN
+            Visit(nd.d, o) \cup
+            (IF ~dv.ok THEN {}
+             ELSE LET RECURSIVE Go(_)
+                      Go(i) == IF i > Len(nd.cases) THEN OptVisit(nd.dflt, o)
+                               ELSE LET c == Eval(nd.cases[i].c, o) IN
+                                    Visit(nd.cases[i].c, o) \cup
+                                    (IF ~c.ok \/ PredRaises(c.v, dv.v) THEN {}
+                                     ELSE IF PredHolds(c.v, dv.v) THEN Visit(nd.cases[i].n, o) ELSE Go(i + 1))
+                  IN Go(1))
+      [] nd.k = "coalesce" ->
+            LET RECURSIVE Go(_)
+                Go(i) == IF i > Len(nd.ms) THEN {}
+                         ELSE Visit(nd.ms[i], o) \cup
+                              (IF Validate(nd.ms[i], o).ok /\ Eval(nd.ms[i], o).ok THEN {} ELSE Go(i + 1))
+            IN Go(1)
+      [] nd.k = "coll" -> VisitSeq(nd.ms, o)
+      [] nd.k = "map" ->
+            LET cs == MapCombos(nd, o) IN
+            VisitSeq([i \in 1 .. Len(nd.its) |-> nd.its[i].n], o) \cup
+            (IF ~cs.ok THEN {} ELSE UNION {Visit(nd.inner, Mix(o, cs.v[c].nested)) : c \in 1 .. Len(cs.v)})
+      [] nd.k = "with" -> Visit(nd.inner, Overlay(nd, o))
+      [] nd.k = "cached" -> Visit(nd.inner, o)
+      [] nd.k = "ds" ->
+            LET o2 == DsOptions(nd, o)
+                sel == DsSelect(nd, o2) IN
+            OptVisit(nd.disp, o2) \cup (IF sel.ok THEN Visit(sel.n, o2) ELSE {})
+      [] nd.k = "fnapp" -> VisitSeq(nd.args, o)
+
+\* the dataset a derivative was derived from (bodies, caches and tables belong to it)
+RECURSIVE BaseOf(_)
+BaseOf(n) == IF nodes[n].k = "dsof" THEN BaseOf(nodes[n].base) ELSE n
+
+\* the dataset demands among the visited nodes
+Dem(n, o) ==
+    {LET nd == NodeRec(x.n) o2 == DsOptions(nd, x.o) IN
+     [d |-> BaseOf(x.n), oe |-> Restrict(o2, {p \in Mentions(x.n) : Has(p, o2)})] :
+        x \in {y \in Visit(n, o) : NodeRec(y.n).k = "ds"}}
+
+\* a coalesce on the evaluation path drops a member that validates but then fails to evaluate
+\* (a raising body, a value outside its domain): keys()/validate() follow the validating member,
+\* evaluate() the next one -- the key-related invariants are stated for evaluations without this
+Swallows(n, o) ==
+    \E x \in Visit(n, o) :
+        LET nd == NodeRec(x.n) IN
+        nd.k = "coalesce" /\
+        \E i \in 1 .. Len(nd.ms) :
+            /\ \A j \in 1 .. i - 1 : ~(Validate(nd.ms[j], x.o).ok /\ Eval(nd.ms[j], x.o).ok)
+            /\ Validate(nd.ms[i], x.o).ok /\ ~Eval(nd.ms[i], x.o).ok
+
+\* permitted body runs per dataset node in ONE evaluation with cold caches: one per distinct demand
+Permit(n, o) ==
+    LET ds == Dem(n, o)
+        ids == {x.d : x \in ds} IN
+    {[d |-> i, c |-> Cardinality({x \in ds : x.d = i})] : i \in ids}
+
+-----------------------------------------------------------------------------
 \* C09: the option keys the template substitution looks up when n is evaluated under o
 \* (transitively through templated values; absent ones included)
 RECURSIVE TemplateReads(_, _)
 TemplateReads(n, o) ==
-    LET nd == nodes[n] IN
+    LET nd == NodeRec(n) IN
     CASE nd.k = "tmpl" ->
             LET refs == {p \in RefsOf(nd.s) : \A i \in 1 .. Len(nd.ps) : p # <<":" \o nd.ps[i].name \o ":">>} IN
             refs \cup UNION {IF Has(p, o) THEN RefsTrans(Get(p, o), o) ELSE {} : p \in refs}
@@ -512,9 +620,8 @@ TemplateReads(n, o) ==
 
 -----------------------------------------------------------------------------
 \* static: every path the graph below n refers to anywhere
-RECURSIVE Mentions(_)
 Mentions(n) ==
-    LET nd == nodes[n]
+    LET nd == NodeRec(n)
         Kids(ns) == UNION {Mentions(ns[i]) : i \in 1 .. Len(ns)}
         Opt(m) == IF m = 0 THEN {} ELSE Mentions(m) IN
     CASE nd.k = "val" -> {}
